@@ -133,7 +133,7 @@ type Universe struct {
 var U = Universe{
 	Depts:     []string{"d1", "d2", "d3"},
 	DeptNames: []string{"dn1", "dn2", "dn3"},
-	People:    []string{"p1", "p2", "p3", "p4", `a"b`, `a\b`, `x" or id != "`},
+	People:    []string{"p1", "p2", "p3", "p4", `a"b`, `a\b`, `x" or id != "`, `c\nd`, `e\\f`},
 	Names:     []string{"n1", "n2", "n3", "n4", "n5"},
 	Nicks:     []string{"k1", "k2"},
 	Roles:     []string{"r1", "r2", "r3"},
@@ -146,7 +146,7 @@ var U = Universe{
 	TagKeys:   []string{"tk1", "tk2"},
 }
 
-const nHostilePeople = 3
+const nHostilePeople = 5 // quote, backslash, filter syntax, backslash + escape letter, double backslash
 
 func (u Universe) ByStore() map[string][]string {
 	return map[string][]string{StDepts: u.Depts, StPeople: u.People, StStaff: u.People, StPX: u.People, StBadges: u.Badges,
@@ -298,7 +298,8 @@ func (g *gen) checker(op *Op, fields []string) {
 	}
 }
 
-var personFieldNames = []string{"name", "nick", "roles", "dept", "mentor", "tags", "groups"}
+// "isSystem" can be named by a field checker like any other field; the flag must stay what it was at creation (C16)
+var personFieldNames = []string{"name", "nick", "roles", "dept", "mentor", "tags", "groups", "isSystem"}
 
 func (g *gen) genOp() Op {
 	sh := g.shadow
@@ -825,28 +826,41 @@ func genConcurrent(profile, prop string, seed uint64, r *rand.Rand) *Plan {
 		}
 	}
 	if profile == "snap" {
+		// the snapshot task: starts with a snapshot, then a random script of further snapshots, restores (of the
+		// latest or of any earlier snapshot, so the same snapshot is restored more than once), timeline-id requests
+		// and idle scheduling points that let other tasks commit in between
 		tp := TaskPlan{Name: "S"}
-		rounds := 1 + r.IntN(2)
-		for i := 0; i < rounds; i++ {
-			if r.IntN(3) == 0 {
-				tp.Txs = append(tp.Txs, TxPlan{Mode: "timeline"})
-			}
+		snapTx := func() TxPlan {
 			kind := pick(r, []string{"file", "file", "stream"})
 			snap := TxPlan{Mode: "snapshot", Arg: kind, N: -1}
 			if kind == "stream" && r.IntN(5) == 0 {
 				snap.N = r.IntN(40000) // F11: writer fails after N bytes
 			}
-			tp.Txs = append(tp.Txs, snap)
-			// let other tasks commit: the snapshot task idles for a few scheduling points
-			tp.Txs = append(tp.Txs, TxPlan{Mode: "idle", N: r.IntN(6)})
-			rs := TxPlan{Mode: "restore", Arg: pick(r, []string{"bytes", "reader", "reader"}), N: -1}
-			if r.IntN(6) == 0 {
-				rs.Args = []string{"fail"} // F11: reader fails mid-stream
-				rs.Arg = "reader"
-			}
-			tp.Txs = append(tp.Txs, rs)
-			if r.IntN(4) != 0 {
+			return snap
+		}
+		if r.IntN(3) == 0 {
+			tp.Txs = append(tp.Txs, TxPlan{Mode: "timeline"})
+		}
+		tp.Txs = append(tp.Txs, snapTx())
+		n := 2 + r.IntN(6)
+		for i := 0; i < n; i++ {
+			switch r.IntN(8) {
+			case 0:
+				tp.Txs = append(tp.Txs, snapTx())
+			case 1, 2, 3:
+				rs := TxPlan{Mode: "restore", Arg: pick(r, []string{"bytes", "reader", "reader"}), N: -1}
+				if r.IntN(3) == 0 {
+					rs.N = r.IntN(4) // any earlier snapshot
+				}
+				if r.IntN(6) == 0 {
+					rs.Args = []string{"fail"} // F11: reader fails mid-stream
+					rs.Arg = "reader"
+				}
+				tp.Txs = append(tp.Txs, rs)
+			case 4, 5:
 				tp.Txs = append(tp.Txs, TxPlan{Mode: "timeline"})
+			default:
+				tp.Txs = append(tp.Txs, TxPlan{Mode: "idle", N: 1 + r.IntN(6)})
 			}
 		}
 		p.Tasks = append(p.Tasks, tp)
